@@ -11,7 +11,7 @@ EXPLANATION = ('The handler bound at opcode_table[n] for every opcode n in C07\'
                '(DIVGUARD, NOSIGNEDOVF); the two interpreter drivers are compared construct by construct (DRIVERS).  Values are '
                'never evaluated: the normal form quantifies over all operand values.  Equality of shaping output between the two '
                'builds is NOT decided -- only the structural agreement that is its necessary condition.')
-FLOORS = {'SIG': 32, 'TABLE': 60, 'PARAMSZ': 55, 'VMSTACK': 60, 'STACKMODEL': 30, 'DIVGUARD': 1, 'NOSIGNEDOVF': 50, 'DRIVERS': 90}
+FLOORS = {'SIG': 32, 'TABLE': 60, 'PARAMSZ': 55, 'VMSTACK': 60, 'STACKMODEL': 30, 'DIVGUARD': 1, 'NOSIGNEDOVF': 50, 'DRIVERS': 90, 'DERIVED': 1}
 
 
 def run(run):
@@ -24,6 +24,8 @@ def run(run):
     R.divguard(run, vm)
     R.nosignedovf(run, vm)
     drivers.check(run, vm)
+    from . import c02
+    c02.derived(run, vm.fx)        # the operand bytes the handlers claim are read through _data
     run.assume('clang 14 and gcc agree on the C++ semantics of the handler bodies (integer promotions, conversions)')
     run.observe('doc/OpCodes.adoc lists 0x3E as BitAnd and 0x3F as BitOr; enum opcode, opcode_table names, the handlers and every font '
                 'producer use 0x3E = OR, 0x3F = AND: documentation rows swapped, spec follows the on-disk numbering')
